@@ -89,7 +89,7 @@ fn c07_quantize_parameters_n1() {
 }
 
 /// Two coefficients (exercises the max-reduction of `find_shift` and the tail-zero trimming).
-//@ unit props=C07,C02 tier=quick kind=bounded timeout=1500 funcs="lpc::find_shift; lpc::quantize_parameter; lpc::quantize_parameters" bound="2 coefficients (every finite f64), precision 1..=15 complete"
+//@ unit props=C07,C02 tier=thorough kind=bounded timeout=1500 funcs="lpc::find_shift; lpc::quantize_parameter; lpc::quantize_parameters" bound="2 coefficients (every finite f64), precision 1..=15 complete"
 #[kani::proof]
 #[kani::unwind(34)]
 #[kani::stub(std::fmt::format, stub_format)]
